@@ -242,7 +242,12 @@ class _HamiltonianSystem(_DynamicalSystem):
             Compiled function implementing Hamilton's equations.
         """
 
-        jac_H, clmo_H, n_dof = self.jac_H, self.clmo_H, self.n_dof
+        # The base class compiles the returned function in nopython mode, where
+        # numba.typed.List objects cannot be captured as closure constants;
+        # (nested) tuples of arrays can.
+        jac_H = tuple(tuple(np.asarray(coeffs) for coeffs in var_derivs) for var_derivs in self.jac_H)
+        clmo_H = tuple(np.asarray(clmo) for clmo in self.clmo_H)
+        n_dof = self.n_dof
 
         def _rhs_impl(t: float, state: np.ndarray) -> np.ndarray:
             # Autonomous: t is unused; required for interface consistency
